@@ -703,8 +703,8 @@ def sweeper_body(fl):
 # deadline, the due set, the conflict passed on), R06.4 = charge and entry go together, R16.5 = the cost
 # reported is the charge read before its release, R08.2 = the value reported is the removed one
 SWEEPER_ASPECTS = {
-    "C03": {"R05.6"}, "C04": {"R05.6", "R06.4"}, "C05": {"R05.6", "R06.4", "R16.5", "R08.2"}, "C06": {"R06.4"}, "C11": {"R05.6"},
-    "C16": {"R16.5"}, "C08": {"R08.2", "R06.4"}, "C09": {"R05.6"},
+    "C03": {"R05.6"}, "C04": {"R05.6", "R06.4"}, "C05": {"R05.6", "R06.4", "R16.5", "R08.2", "R05.8"}, "C06": {"R06.4"}, "C11": {"R05.6"},
+    "C16": {"R16.5"}, "C08": {"R08.2", "R06.4", "R05.8"}, "C09": {"R05.6"},
 }
 
 
@@ -764,6 +764,10 @@ def _sweeper_all(rep, fl):
     rep.check(a[1] == k, "R06.4", fl, x, "same key", "policy.remove and store.try_remove act on the same key", "policy.remove(%s) vs store.try_remove(%s)" % (show(k), show(a[1])), loc=tr[1]["sp"])
     # pairing: every path through policy.remove reaches store.try_remove
     rep.check(must_pass_through(x, [tr[0]], from_bi=pr[0]), "R06.4", fl, x, "remove pair", "releasing the charge is always followed by removing the entry", "policy.remove can happen without store.try_remove")
+    # ... and the other way round: no path reaches the store removal without having released the charge
+    # (`if cost > 0 { policy.remove(k) }` keeps the charge of an entry that costs nothing)
+    rep.check(block_dominates(x, pr[0], tr[0]), "R06.4", fl, x, "charge released first", "store.try_remove is reached only through policy.remove(k): every swept entry is un-charged, whatever its cost",
+              "the sweeper can remove an entry from the store without policy.remove (the release is conditional): the charge outlives the entry and a later insert of the key is refused as an update", loc=pr[1]["sp"])
     # conflict value comes from the bucket entry (not 0 / constant)
     rep.check(a[2][0] != "const", "R05.6", fl, x, "conflict from bucket", "try_remove is given the conflict recorded in the bucket", "try_remove is called with a constant conflict %s" % show(a[2]))
     # result item: val Some(sitem.value), cost, exp: t
@@ -788,6 +792,16 @@ def _sweeper_all(rep, fl):
         rep.check(okexp, "R05.6", fl, y, "evicted item: deadline", "the swept entry is reported with its stored deadline", "swept item carries exp=%s" % show(exp_e), loc=st["sp"])
     else:
         rep.bad("R05.6", fl, x, "evicted item", "expected one Item construction in the sweeper, found %d" % len(items))
+    # every key handed over by the expiry index is examined: the index has already forgotten them, so a key that
+    # is skipped (take(n), skip, step_by, ...) stays in the store for ever, hidden by its elapsed deadline
+    trunc = []
+    for y in descendants(facts, root):
+        for bi_, t_ in y.calls():
+            c_ = y.callee_of(t_)
+            if re.search(r"Iterator::(take|skip|step_by|take_while|skip_while|nth|nth_back|last|find|position)$|::(truncate|split_off|pop|swap_remove|drain)$", c_) and str((t_.get("sp") or {}).get("f", "")).startswith("src/"):
+                trunc.append(c_.split("::")[-1])
+    rep.check(not trunc, "R05.8", fl, root, "whole due set", "the sweeper examines every key of the due set it took from the expiry index",
+              "the sweeper drops part of the due set (%s) after the expiry index has already forgotten those keys: they are never reclaimed nor handed to on_evict" % ", ".join(sorted(set(trunc))))
     # the due set comes from em.try_cleanup(Time::now())
     ec = calls_to(root, EM + "::try_cleanup")
     ok = len(ec) == 1 and is_call(norm(root.call_args(ec[0][1])[1]), "Time::now")
@@ -1029,6 +1043,33 @@ def check_C05(rep, fl):
     check_sweeper(rep, fl)
     check_tick(rep, fl)
     check_store_writes(rep, fl)
+    check_single_section(rep, fl, "R05.2", [EM + "::try_insert", EM + "::try_update", EM + "::try_remove", EM + "::try_cleanup"],
+                         "looking a bucket up and creating, filling or removing it")
+
+
+LOCK_CALLS = ("Mutex::lock", "RwLock::read", "RwLock::write", "RwLock::upgradable_read", "Mutex::try_lock", "RwLock::try_read", "RwLock::try_write",
+              "Mutex::try_lock_for", "RwLock::try_write_for", "RwLock::try_read_for")
+
+
+def lock_acquisitions(body):
+    return [(bi, t) for bi, t in body.calls() if any(callee_matches(body.callee_of(t), c) for c in LOCK_CALLS) and str((t.get("sp") or {}).get("f", "")).startswith("src/")]
+
+
+def check_single_section(rep, fl, rule, fns, what):
+    """Each listed function takes its lock once: a look-up and the insertion / reset that acts on it are one
+    critical section.  Two acquisitions (release in between, re-lock, act on the earlier answer) let another
+    thread change what was looked up - a bucket created meanwhile is overwritten, lookups appended meanwhile are
+    wiped."""
+    facts = fl.facts
+    for path in fns:
+        b = fl.code(path, required=False)
+        if b is None:
+            rep.missing(rule, fl, path)
+            continue
+        fb = facts.flat(b)
+        n = len(lock_acquisitions(fb))
+        rep.check(n == 1, rule, fl, b, "one critical section", "%s takes its lock once: %s happen in one critical section" % (short(path), what),
+                  "%s acquires its lock %d times: %s are no longer one critical section, another thread can get in between" % (short(path), n, what))
 
 
 def check_C09(rep, fl):
@@ -1036,5 +1077,9 @@ def check_C09(rep, fl):
     # "on a resident key it behaves as an update of value and cost": the queued Update always re-charges
     import props_cache
     props_cache.check_arms_reach_policy(rep, fl)
+    props_cache.check_insert_offered(rep, fl)
+    # ... and the policy's update wrapper hands it on unconditionally (whatever the cost)
+    import props_policy
+    props_policy.check_policy_forwarding(rep, fl)
     check_store_writes(rep, fl)
     check_ttl_plumbing(rep, fl)
